@@ -271,3 +271,13 @@ func lemmaTickMonotone(intervalStart uint64, intervalsPerDay uint32, t1, t2 uint
 //@ loop 2 invariant #onlyValid: forallint(k, pattern(tgData[k]), (in(k, tgData) && tgData[k] != nil) ==> (tgValid(base(tgData[k]), len(tgData[k])) && len(tgData[k]) >= 8))
 //@ loop 3 invariant #idx: 0 <= iter0 && iter0 <= len(sortedTGIDs)
 //@ loop 3 invariant #sortedBeforeApply: sortedAsc(base(sortedTGIDs), len(sortedTGIDs))
+
+// ---------------------------------------------------------------------------------------------
+// C16 (writer side): the auto-create path of WriteCSM hands AddTimeBucket a path derived from the same key
+
+//@ func (*Writer).WriteCSM
+//@ props C16
+//@ option noimplicit
+//@ assumepre catalog.Directory.AddTimeBucket.schema "observation outside C16: item/category count mismatch is not checked"
+//@ loop 0 invariant true
+//@ loop 1 invariant true
